@@ -265,6 +265,10 @@ def coq_state(c, e):
             f"{lib.coq_nat(e['ndata'])} {lib.coq_nat(e['nsteps'])})")
 
 
+def coq_init(c):
+    return f"init_run {coq_config(c)} {lib.qclit(c['grid'][0])} {coq_u0(c)} {lib.coq_bool(bool(c.get('cinit')))}"
+
+
 def coq_step(c, e, dt):
     return f"step_run {coq_config(c)} {coq_state(c, e)} {lib.qclit(dt)}"
 
